@@ -18,19 +18,9 @@ FAMILIES = [
 # Model-level posting routes (arithmetic/array/boolean/global/linear/reified API methods): structural and semantic
 # families of vlib/props/routes.py; their known classes are recorded under C01/C02/C10/C17 in known_findings.txt
 from . import routes as _routes
-# TEMPORARY (until the routes model is updated to fix commits e45322d / e2596cd): the two malformed-argument
-# families are left out because the model still describes the pre-fix handling of length-mismatched reified
-# postings and malformed table tuples
-FAMILIES += [f for f in _routes.FAMILIES if not f.name.endswith("_malformed")]
+FAMILIES += _routes.FAMILIES
 KNOWN_PIDS = _routes.KNOWN_PIDS
 SHARED_CLASSES = _routes.SHARED_CLASSES
 TRUSTED_BASE = TRUSTED_BASE + [t for t in _routes.TRUSTED_BASE if t not in TRUSTED_BASE]
 ASSUMPTIONS = ASSUMPTIONS + [a for a in _routes.ASSUMPTIONS if a not in ASSUMPTIONS]
 
-# TEMPORARY_NE: see vlib/props/c10.py
-import copy as _copy
-def _no_ne(fam):
-    fam = _copy.copy(fam); g = fam.gen
-    fam.gen = lambda tier, rng, g=g: [c for c in g(tier, rng) if "ne(" not in c]
-    return fam
-FAMILIES = [(_no_ne(f) if f.name.startswith("rsolve") else f) for f in FAMILIES]
